@@ -1,8 +1,19 @@
 (* C02 — tampered ciphertext is never accepted as different data.
-   The packet model is shared with C01 (Model/C01.v: read_message with its ghost `authev`
-   output, constant_time_bytes_eq, read_many).  This file adds the sender's log and the
-   symbolic authenticity premise. *)
+   The packet model is shared with C01 (Model/C01.v): read_message with its ghost `authev`
+   output (what was authenticated before a payload was produced), constant_time_bytes_eq,
+   read_many.  This file adds the vocabulary of the symbolic adversary argument. *)
 From PV Require Import Bytes C01.
 From Coq Require Import ZArith List Bool.
 Import ListNotations.
 Open Scope Z_scope.
+
+Definition is_prefix {A} (a b : list A) : Prop := exists t, b = a ++ t.
+
+(* the sender's log: the authenticated events of the messages it produced (MAC input + tag,
+   or AEAD iv/aad/ciphertext), as the honest receiver run reports them *)
+Definition sender_log (P : prims) (r : pstate P) (wire : list Z) : list authev :=
+  let '(_, evs, _, _, _) := read_many_flat P (S (length wire)) r wire in evs.
+
+(* symbolic (Dolev-Yao) premise: every tag / AEAD ciphertext the receiver accepted while reading
+   the adversary's stream was produced by the key owner for exactly these bytes *)
+Definition authentic (log accepted : list authev) : Prop := Forall (fun ev => In ev log) accepted.
